@@ -1473,3 +1473,39 @@ def r14_bits_setters_test_the_type(ck, P, rid='C14-R14'):
                 ck.violation(R, f.name, 'store to %s without a type test' % lf, '%s stores into %s (%s) whatever kind of image it was handed: for a solid fill or a gradient that member of the union is the colour or the stop array, so the call silently changes what the image paints, or leaves a pointer the finaliser will free' % (f.name, lf, x.loc()), x.loc())
     if n == 0:
         raise AnalysisBroken('%s: no exported setter stores into a bits_image_t field' % rid)
+
+
+def r20_12_fini_releases_the_alpha_map_on_every_path(ck, P, rid='C20-R11'):
+    """Must-pass-through: the finaliser releases what every kind of image may own - also the kinds that own little of their own.  Whatever
+    the type, the reference on an attached alpha map is dropped before the finaliser reports that the image is gone."""
+    R = ck.rule(rid, 'in the image finaliser every path to a return of a non-zero value (the image is to be freed) passes the test of common.alpha_map: a shortcut for "solid fills own nothing" that returns before it leaves the reference on the alpha map in place - the map leaks, its destroy callback never runs and its alpha_count stays raised', floor=1)
+    f = P.fn('_pixman_image_fini', required=False)
+    if f is None:
+        raise AnalysisBroken('%s: _pixman_image_fini not found' % rid)
+    ck.saw(f)
+    passes = {x.bb.id for x in f.insts() if x.op == 'load' and f.last_field(f.path(x.a[0])) == 'image_common.alpha_map'}
+    rets = f.rets()
+    rv = f.v(rets[0].a[0]) if len(rets) == 1 and rets[0].a and rets[0].a[0][0] == 'v' else None
+    if not passes or rv is None or rv.op != 'phi':
+        raise AnalysisBroken('%s: unexpected shape of _pixman_image_fini' % rid)
+    n = 0
+    for a, bb in zip(rv.a, rv.d['bb']):
+        if a[0] == 'c' and int(a[1]) == 0:
+            continue
+        n += 1
+        seen = set(); work = [0]; hit = False
+        while work:
+            b = work.pop()
+            if b in seen or b in passes:
+                continue
+            seen.add(b)
+            if b == bb:
+                hit = True; break
+            work.extend(f.blocks[b].succ)
+        where = '_pixman_image_fini: non-zero return from block %d' % bb
+        if hit:
+            ck.violation(R, f.name, 'image reported gone without looking at its alpha map', '_pixman_image_fini can answer TRUE from the block ending at %s without having looked at common.alpha_map: an image of a kind that "owns nothing" may still hold a reference on an alpha map, which is then never released' % f.blocks[bb].term.loc(), f.blocks[bb].term.loc())
+        else:
+            ck.ok(R, where, 'after the alpha map was released')
+    if n == 0:
+        raise AnalysisBroken('%s: no non-zero return in _pixman_image_fini' % rid)
